@@ -17,10 +17,16 @@ ends at `start - 1` and has `lastN` entries or begins at block 1; the last-N sec
 when there are blocks since the start block (`start < last`), and a non-empty last-N section ends
 at the parent of the last header; without samples it begins at the requested start, or — more
 than `lastN` blocks are missing and the server found every requested difficulty inside the last-N
-section — it has exactly `lastN` entries, no block before it reaches the difficulty boundary and
-the first requested difficulty (hence, the difficulties being increasing, every one: see
-`samples_sound_no_sampled`) lies above the parent total difficulty of its first header; with
-samples no block before it reaches the difficulty boundary.
+section — it has at least `lastN` entries, no block before it reaches the difficulty boundary
+(the parent total difficulty of its first header lies below the boundary), the first requested
+difficulty (hence, the difficulties being increasing, every one: see `samples_sound_no_sampled`)
+lies above the parent total difficulty of its first header, and when it has more than `lastN`
+entries its first header reaches the boundary: such a section is either exactly `lastN` long, or
+longer and then it begins exactly at the first block that reaches the boundary (the honest answer
+when more than `lastN` blocks follow that block; `check_if_response_is_matched` insisted on
+exactly `lastN` entries before its repair and answered 400, see
+`C05.answer_without_samples_long_section_accepted_shape`); with samples no block before it
+reaches the difficulty boundary.
 
 The non-emptiness conjunct is the repair of `check_if_response_is_matched` (witness
 `witness_last_n_must_not_be_empty`): the pinned tree accepted a response made of a reorg section
@@ -38,8 +44,9 @@ theorem shape_sound (lastN : Nat) (c : ReqContent) (headers : List VH) (last : V
     (c.startNumber < last.number → 0 < ln) ∧
     (0 < ln → (headers.getLast?.map (fun l => l.number + 1)) = some last.number) ∧
     (sc = 0 → 0 < ln → (headers[r]?.map (·.number)) = some c.startNumber ∨
-      (lastN < last.number - c.startNumber ∧ ln = lastN ∧
-        ∃ f, headers[r]? = some f ∧ f.ptd < c.boundary ∧ ∀ d ∈ c.difficulties.head?, f.ptd < d)) ∧
+      (lastN < last.number - c.startNumber ∧ lastN ≤ ln ∧
+        ∃ f, headers[r]? = some f ∧ f.ptd < c.boundary ∧ (∀ d ∈ c.difficulties.head?, f.ptd < d) ∧
+          (lastN < ln → ∃ ftd, f.td = .ok ftd ∧ c.boundary ≤ ftd))) ∧
     (sc ≠ 0 → ∃ f, headers[r + sc]? = some f ∧ f.ptd < c.boundary) := by
   obtain ⟨hsorted, hr, hreorg, hmid⟩ := checkMatched_inv h
   obtain ⟨hshape, hbound, htail⟩ := cmMid_inv hmid
@@ -54,7 +61,12 @@ theorem shape_sound (lastN : Nat) (c : ReqContent) (headers : List VH) (last : V
     rcases hstart hsc hln with h0 | ⟨f, hf, hns⟩
     · exact .inl h0
     · obtain ⟨h1, h2, h3, h4⟩ := checkNoSampled_eq_none.1 hns
-      exact .inr ⟨h1, h2, f, hf, h3, h4⟩
+      refine .inr ⟨h1, h2, f, hf, h3, h4, fun hlong => ?_⟩
+      subst hsc
+      obtain ⟨f', ftd, hf', hftd, hb⟩ := cmShape_long_no_sampled hshape hlong
+      rw [hf] at hf'
+      cases hf'
+      exact ⟨ftd, hftd, hb⟩
   · intro hsc
     obtain ⟨f, hf, hlt⟩ := hbound hsc
     have : headers.length - ln = r + sc := by omega
@@ -115,7 +127,7 @@ theorem samples_sound_no_sampled (lastN : Nat) (c : ReqContent) (headers : List 
     (h : checkMatched lastN c headers last = .ok (.ok (r, 0, ln))) :
     ∃ f, headers[r]? = some f ∧ f.ptd < c.boundary ∧ ∀ d ∈ c.difficulties, f.ptd < d := by
   obtain ⟨-, -, -, -, -, -, hshape, -⟩ := shape_sound lastN c headers last r 0 ln h
-  rcases hshape rfl hln with h0 | ⟨-, -, f, hf, hb, hd⟩
+  rcases hshape rfl hln with h0 | ⟨-, -, f, hf, hb, hd, -⟩
   · exact absurd h0 hstart
   · refine ⟨f, hf, hb, ?_⟩
     have hpw : c.difficulties.Pairwise (· < ·) := (strictlyIncreasing_iff_pairwise _).1 hsorted
@@ -327,6 +339,19 @@ example :
       [hd 38 3700, hd 39 3800] (hd 40 3900) = .ok (.ok (0, 0, 2)) ∧
     checkMatched 2 ⟨40, 0, 37, 2, 3750, [3700, 3720]⟩
       [hd 38 3700, hd 39 3800] (hd 40 3900) = .ok (.error 451) :=
+  ⟨by rfl, by rfl⟩
+
+/-- non-vacuity of the no-sample shape with a last-N section **longer** than `lastN`
+(`shape_sound`): start 35, last header 40, boundary and the requested difficulty inside block 37,
+last-N `[37, 38, 39]` — three blocks, more than `lastN = 2`, follow the parent of the block that
+reaches the boundary: accepted with counts `(0, 0, 3)`; the same section without block 37 (its
+first header's parent reaches the boundary) is malformed: 400 -/
+example :
+    let hd (n ptd : Nat) : VH := ⟨n, n, n, n - 1, ptd, n - 1, ⟨0, n, 1000⟩, 0x20028f5c, true, true, true⟩
+    checkMatched 2 ⟨40, 0, 35, 2, 3650, [3620]⟩
+      [hd 37 3600, hd 38 3700, hd 39 3800] (hd 40 3900) = .ok (.ok (0, 0, 3)) ∧
+    checkMatched 2 ⟨40, 0, 34, 2, 3650, [3620]⟩
+      [hd 38 3700, hd 39 3800] (hd 40 3900) = .ok (.error 400) :=
   ⟨by rfl, by rfl⟩
 
 end C01
